@@ -27,9 +27,13 @@ type SubScript struct {
 	// SwitchAt >= 0: at that source packet index the subscriber changes its request to SwitchTo
 	SwitchAt int
 	SwitchTo string
-	// RembAt >= 0: from that source index on, a REMB of RembBps is sent every 150 packets until RembUntil
-	RembAt, RembUntil int
-	RembBps           float32
+	// bandwidth feedback: during [From, Until) a REMB of Bps is sent every 150 packets
+	Rembs []RembPhase
+}
+
+type RembPhase struct {
+	From, Until int
+	Bps         float32
 }
 
 // GenRx is one received packet.
@@ -124,15 +128,60 @@ func RunGen(srv *vsrv.Server, name string, cfg *vdown.StreamCfg, scripts []SubSc
 		res.Why = "publisher did not connect"
 		return res
 	}
-	for _, m := range subs {
-		if !waitDown(m.p, streamID) {
-			res.Why = "a subscriber's down stream did not connect"
+	tr := up.Track("v0")
+	// Warm-up: the server offers a stream to subscribers only once media flows.  Until every
+	// subscriber's down stream is connected, single-layer frames that are NOT keyframes are
+	// sent (the first, key, picture of the warm-up stream is skipped): with no keyframe in
+	// the cache the server replays nothing to a joining down track, so that every packet of
+	// the real stream reaches every down track in order.  Numbers continue into the real stream.
+	wcfg := *cfg
+	wcfg.SLayers, wcfg.TPattern, wcfg.TMax, wcfg.KeyEvery, wcfg.KeyProb, wcfg.MaxPktsPerFrame, wcfg.Pictures = 1, []uint8{0}, 0, 0, 0, 1, 3000
+	warm := vdown.Generate(&wcfg, r)
+	connected := -1
+	sent := 0
+	for i, p := range warm {
+		if p.Pic == 0 {
+			continue
+		}
+		if connected < 0 && i%20 == 0 {
+			all := true
+			for _, m := range subs {
+				if d := m.p.Down(streamID); d == nil || d.PC == nil || d.PC.ConnectionState().String() != "connected" {
+					all = false
+				}
+			}
+			if all {
+				connected = i
+			}
+		}
+		if connected >= 0 && i > connected+250 {
+			break
+		}
+		// warm-up packets carry the id 0xFFFFFFFF so that they cannot be taken for real ones
+		if parsed, err := vdown.Parse(cfg.Codec, p.Bytes); err == nil && len(parsed.Body) >= 5 {
+			off := len(p.Bytes) - len(parsed.Body)
+			copy(p.Bytes[off+1:off+5], []byte{0xff, 0xff, 0xff, 0xff})
+		}
+		var pkt rtp.Packet
+		if err := pkt.Unmarshal(p.Bytes); err != nil {
+			res.Why = "generator produced an unparsable packet"
 			return res
 		}
+		pkt.Header.CSRC = nil
+		tr.Local.WriteRTP(&pkt)
+		sent = i
+		time.Sleep(time.Millisecond)
 	}
+	if connected < 0 {
+		res.Why = "a subscriber's down stream did not connect"
+		return res
+	}
+	last := warm[sent]
+	cfg.StartSeq = last.Seqno() + 1
+	cfg.StartPid = last.Pid + 1
+	cfg.StartTS = wcfg.StartTS + uint32(last.Pic+1)*3000
 	src := vdown.Generate(cfg, r)
 	res.Src = src
-	tr := up.Track("v0")
 	remb := func(m member, bps float32) {
 		if d := m.p.Down(streamID); d != nil && d.PC != nil {
 			for _, t := range d.Tracks() {
@@ -171,8 +220,10 @@ func RunGen(srv *vsrv.Server, name string, cfg *vdown.StreamCfg, scripts []SubSc
 				default:
 				}
 			}
-			if sc.RembAt >= 0 && i >= sc.RembAt && i < sc.RembUntil && (i-sc.RembAt)%150 == 0 {
-				remb(subs[k], sc.RembBps)
+			for _, ph := range sc.Rembs {
+				if i >= ph.From && i < ph.Until && (i-ph.From)%150 == 0 {
+					remb(subs[k], ph.Bps)
+				}
 			}
 		}
 		time.Sleep(time.Millisecond)
